@@ -39,7 +39,11 @@ def run_seed(base, i):
 # worker side
 # ---------------------------------------------------------------------------------------------
 
-RUN_WALL_LIMIT = 60
+def _summarise(res):
+    return res.to_dict()
+
+
+RUN_WALL_LIMIT = 40
 
 
 class RunHung(BaseException):
@@ -50,13 +54,27 @@ def _on_alarm(signum, frame):
     raise RunHung()
 
 
-def _summarise(res):
-    return res.to_dict()
+HANG_SIG = "C12:decoding-did-not-terminate"
 
 
 def run_plan_dict(plan):
+    """Run one plan in this process, guarded by the wall-clock watchdog (a hang becomes a result, not a hang)."""
     mod = family(plan["family"])
-    res = mod.run_plan(plan)
+    old = signal.signal(signal.SIGALRM, _on_alarm)
+    signal.alarm(RUN_WALL_LIMIT)
+    try:
+        res = mod.run_plan(plan)
+    except RunHung:
+        from .observe import RunResult
+        res = RunResult()
+        res.digest = "hang"
+        if plan.get("cfg", {}).get("variant") in ("garbage", "corrupt"):
+            res.violate("C12", HANG_SIG, "run did not return to the simulator within %d s of wall clock" % RUN_WALL_LIMIT)
+        else:
+            res.harness_error = "HANG"
+    finally:
+        signal.alarm(0)
+        signal.signal(signal.SIGALRM, old)
     return res
 
 
@@ -87,6 +105,13 @@ def _work(job):
                 finally:
                     signal.alarm(0)
             except RunHung:
+                if prop == "C12" and plan.get("cfg", {}).get("variant") in ("garbage", "corrupt"):
+                    # termination on hostile bytes *is* the property there
+                    agg["violations"].append({"seed": seed, "idx": idx, "sig": "C12:decoding-did-not-terminate",
+                                              "msg": "run did not return to the simulator within %d s of wall clock while hostile bytes were being decoded: %s" % (
+                                                  RUN_WALL_LIMIT, traceback.format_exc()[-300:].replace("\n", " | ")), "t": None, "digest": None})
+                    agg["runs"] += 1
+                    continue
                 # event caps do not bound a loop that never returns to the simulator (inside afkak or an oracle)
                 agg["harness"].append({"seed": seed, "idx": idx, "error": "HANG: run exceeded %d s of wall clock: %s" % (
                     RUN_WALL_LIMIT, traceback.format_exc()[-900:])})
